@@ -4,11 +4,11 @@ go 1.24.2
 
 require (
 	github.com/AdguardTeam/golibs v0.0.0
+	github.com/robfig/cron/v3 v3.0.1
 	golang.org/x/net v0.39.0
 )
 
 require (
-	github.com/robfig/cron/v3 v3.0.1 // indirect
 	golang.org/x/exp v0.0.0-20250408133849-7e4ce0ab07d0 // indirect
 	golang.org/x/sys v0.32.0 // indirect
 	golang.org/x/text v0.24.0 // indirect
